@@ -57,8 +57,11 @@ def san(name):
 
 
 class Emitter:
-    def __init__(self, mod, entry, redirect, noop):
+    def __init__(self, mod, entry, redirect, noop, noop_re=None):
         self.m = mod
+        self.noop_re = re.compile(noop_re) if noop_re else None
+        self.split_globals = set()
+        self.split_fields = {}
         self.entry = entry
         self.redirect = redirect
         self.noop = set(noop) | NOOP_EXTERNALS
@@ -75,7 +78,7 @@ class Emitter:
         self.seen_globals = set()
         self.extern_stubs = {}
         self.strings = {}
-        self.stats = dict(functions=[], externals=[], unmodelled=[], ext_globals=[], insts=0)
+        self.stats = dict(functions=[], externals=[], unmodelled=[], ext_globals=[], insts=0, noop=[])
         for tname in mod.type_order:
             tag = 'S_' + san(tname)
             base = tag
@@ -204,7 +207,7 @@ class Emitter:
                 self.fn_typedefs[key] = name
                 ret = self.ct(ty[1])
                 ps = [self.ct(p) for p in ty[2]]
-                if ty[3]:
+                if ty[3] and ps:
                     ps.append('...')
                 if not ps:
                     ps = ['void']
@@ -357,6 +360,8 @@ class Emitter:
             return self.cexpr(target)
         if name in self.m.funcs:
             return '(&%s)' % self.func_cname(name)
+        if name in self.split_globals:
+            raise IRError('split global %s used as a whole object' % name)
         if name in self.m.globals:
             if name not in self.seen_globals:
                 self.seen_globals.add(name)
@@ -484,7 +489,21 @@ class Emitter:
 
     def gep_expr(self, sty, pty, base, idx):
         """returns (C expression, result type)"""
-        p = self.val(pty, base)
+        if base[0] == 'global' and base[1] in self.split_globals:
+            # big global struct split into one C global per top-level field (CBMC's symex degrades on
+            # pointer writes into a 250 KB object): @g, 0, k, rest...  ->  @g__fk, 0, rest...
+            if not (len(idx) >= 2 and idx[0][1] == ('int', 0) and idx[1][1][0] == 'int'):
+                raise IRError('split global %s used with a non-constant field path' % base[1])
+            r = self.resolve(sty)
+            k = idx[1][1][1]
+            fty = r[1][k]
+            self.split_fields.setdefault(base[1], {})[k] = fty
+            p = '(&g_%s__f%d)' % (san(base[1]), k)
+            sty = fty
+            idx = [idx[0]] + list(idx[2:])
+            self.ct(fty)
+        else:
+            p = self.val(pty, base)
         cur = sty
         first_ty, first = idx[0]
         e = p
@@ -552,13 +571,21 @@ class Emitter:
         res = ('v_' + san(ins.res) + ' = ') if ins.res and rty[0] != 'void' else ''
         if cal[0] == 'global':
             name = cal[1]
+            hops = 0
+            while name in self.m.aliases and self.m.aliases[name][1][0] == 'global' and hops < 8:
+                name = self.m.aliases[name][1][1]
+                hops += 1
             if name.startswith('@llvm.'):
                 self.emit_intrinsic(name, ins, out)
                 return
             if name in VP_PRIMS:
                 self.emit_prim(name, ins, out)
                 return
-            if name in self.noop and name not in self.redirect:
+            if name not in self.redirect and (name in self.noop or (
+                    self.noop_re is not None and name in self.m.funcs and not self.m.funcs[name].defined
+                    and self.noop_re.search(name))):
+                if name not in self.stats['noop']:
+                    self.stats['noop'].append(name)
                 if res:
                     out.append('%s%s;' % (res, self.zero_of(rty, False)))
                 return
@@ -982,6 +1009,18 @@ class Emitter:
         out += tdefs
         out += protos
         out += stubs
+        for gname, fields in sorted(self.split_fields.items()):
+            g = m.globals[gname]
+            for k, fty in sorted(fields.items()):
+                init = None
+                if g.init is not None and g.init[0] == 'agg':
+                    et, ev = g.init[2][k]
+                    init = self.val(et, ev, True)
+                elif g.init is not None and g.init[0] not in ('zero', 'undef'):
+                    raise IRError('split global %s has an unsupported initialiser' % gname)
+                gdefs.append(('g_%s__f%d' % (san(gname), k), self.ct(fty), init))
+            if g.external or g.init is None:
+                self.stats['ext_globals'].append(gname)
         for (cn, ct, init) in gdefs:
             out.append('static %s %s;' % (ct, cn))
         for (cn, ct, init) in gdefs:
@@ -1007,6 +1046,8 @@ def main():
     ap.add_argument('--redirect', action='append', default=[])
     ap.add_argument('--noop', action='append', default=[])
     ap.add_argument('--stats')
+    ap.add_argument('--noop-re')
+    ap.add_argument('--split-global', action='append', default=[])
     a = ap.parse_args()
     try:
         mod = parse_module(open(a.inp).read())
@@ -1014,7 +1055,8 @@ def main():
         for r in a.redirect:
             x, y = r.split('=')
             red['@' + x] = '@' + y
-        em = Emitter(mod, '@' + a.entry, red, ['@' + n for n in a.noop])
+        em = Emitter(mod, '@' + a.entry, red, ['@' + n for n in a.noop], a.noop_re)
+        em.split_globals = set('@' + g for g in a.split_global if ('@' + g) in mod.globals)
         code = em.run()
     except IRError as e:
         sys.stderr.write('ir2c: UNSUPPORTED: %s\n' % e)
